@@ -28,7 +28,8 @@ RULE = (
 ASSUMPTIONS = ["a column name that coincides with a term's printed form (e.g. 'x') legitimately resolves get_slice() to the term"]
 
 ATOMS = {"A": ["A"], "B": ["B"], "G": ["G"], "x": ["x"], "y": ["y"], "z": ["z"], "poly(x, 2)": ["x"], "log(z ** 2)": ["z"], "bs(y, df=3)": ["y"],
-         "C(B, contr.sum)": ["B"], "center(x)": ["x"], "I(x * y)": ["x", "y"], "C(G)": ["G"], "scale(z)": ["z"], "poly(y, 3)": ["y"]}
+         "C(B, contr.sum)": ["B"], "center(x)": ["x"], "I(x * y)": ["x", "y"], "C(G)": ["G"], "scale(z)": ["z"], "poly(y, 3)": ["y"],
+         "poly(center(z), 2)": ["z"], "I(center(x) ** 2)": ["x"], "scale(log(z ** 2 + 1))": ["z"]}
 
 
 def gen_case(rng: random.Random, tier: str) -> dict:
@@ -156,6 +157,13 @@ def judge(case) -> Outcome:
                 else:
                     check_spec(ss, S, sm, out, tag + f" [subset {kw}]", {**case, "output": "x"})
                     out.see("subsets_checked")
+                # ... and on other data the subset spec must still reproduce the parent's columns (same recorded state)
+                other = df.iloc[[1, 3, 4, 6, 8, 9, 11]].reset_index(drop=True)
+                with quiet():
+                    P2 = dense(ms.get_model_matrix(other))
+                    S2 = dense(ss.get_model_matrix(other))
+                if S2.shape[1] != len(idx) or not np.allclose(S2, P2[:, idx], equal_nan=True):
+                    out.fail("c10.subset_other_data", f"{tag}: subset {[str(t) for t in sub]} {kw} on other data differs from the parent spec's columns on the same data")
             except Exception as e:  # noqa: BLE001
                 out.fail("c10.subset_raised", f"{tag}: subset {[str(t) for t in sub]} {kw}: {type(e).__name__}: {str(e)[:150]}")
     return out
